@@ -4,7 +4,7 @@ evaluator walks the segments (session.py) with a small model of the controller s
 (as matcher text, parsed independently), selected connection, recorded messages."""
 import re
 from . import env, histgen, model, session, wire, refmatch as rm
-from .accmodel import Model as AccModel
+from .accmodel import Model as AccModel, atom_matcher
 
 MALFORMED = ['(', 'a.b.c', '[x', 'x ! y ! z', 'wl_a@5', '"', 'a(b)c']
 
@@ -190,7 +190,7 @@ class Walker:
                 # accumulating command made of simple atoms
                 for a in meta['alts'] + meta['excl']:
                     if a not in self.acc_parsed:
-                        self.acc_parsed[a] = self.matcher.parse(a).simplify()
+                        self.acc_parsed[a] = atom_matcher(self.matcher, a)
                 if self.opaque and not self.filter_never:
                     self.unknown = True
                 else:
